@@ -719,7 +719,9 @@ fn cmd_annexbig(args: &[&str], out: &mut Vec<String>) {
     }
     if mode == "F" {
         let mut r = AnnexBReader::for_fragment_handler(BigTrace { out: Vec::new(), len: 0, crc: 0xFFFF_FFFF, open: false });
-        let block = vec![0xABu8; 32 << 20];
+        // the 32 MiB block is the harness's own allocation: only made when the script has a D token (its size is then part of
+        // the input size the allocation bound of C03 is computed from)
+        let block = if acts.iter().any(|a| matches!(a, Act::Bulk(_))) { vec![0xABu8; 32 << 20] } else { Vec::new() };
         for a in &acts {
             match a {
                 Act::Push(b) => r.push(b),
